@@ -83,14 +83,14 @@ PROPS = {
     'C12': {
         'explanation': 'Clause decided: dedup gate of List::apply (both op variants), absorption of the op dot, fresh-dot tagging of '
                        'insert_index/delete_index and agreement of Op::dot() with the identifier marker, and the identifier comparison table.',
-        'decides': 'GATE(list), ABSORB(list), LIST-TAG, VC-INC, ID-CMP',
+        'decides': 'GATE(list), ABSORB(list), LIST-TAG, VC-INC, ID-CMP, ID-MARKER',
         'not_decided': 'that positions are consistent across replicas (depends on the values Identifier::between produces)',
     },
     'C14': {
         'explanation': 'Clause decided: the decision table of Identifier::cmp over (self has node, other has node, node ordering): Equal for two '
                        'exhausted paths, antisymmetric prefix rule, node ordering decides with the right orientation, equal nodes continue; '
                        'partial_cmp == Some(cmp).',
-        'decides': 'ID-CMP, ID-PCMP',
+        'decides': 'ID-CMP, ID-PCMP, ID-MARKER (every identifier between() builds ends with the caller\'s marker)',
         'not_decided': 'density of between() (midpoint arithmetic and path walk are value-level)',
     },
     'C15': {
